@@ -56,6 +56,9 @@ type MCycle struct {
 	Keys       []int `json:"keys"`
 	Drain      int   `json:"drain"` // -1: pull to io.EOF; k>=0: pull k values only
 	ExtraClear bool  `json:"extra_clear,omitempty"`
+	// NoClear: when AutoClear has reset the sorter at the end of a full
+	// drain, the next cycle starts without an explicit Clear.
+	NoClear bool `json:"no_clear,omitempty"`
 }
 
 type MorassPlan struct {
@@ -84,6 +87,10 @@ type MorassPlan struct {
 	// (falls back to the plain struct type when the supply is exhausted, so a
 	// replay in a fresh process sees a fresh type again).
 	Fresh bool `json:"fresh,omitempty"`
+	// DrainOn (fault runs with AutoClear/AutoClean): when a Pull of the last
+	// cycle reports an error the caller goes on pulling until io.EOF - it
+	// has drained the sorter - and the residue clauses are checked.
+	DrainOn bool `json:"drain_on,omitempty"`
 }
 
 const morassWriterSite = "morass.go:"
@@ -330,6 +337,40 @@ func morassClient(sim *simrt.Sim, pl *MorassPlan, obs *morassObs, variant int) {
 					}
 					fail("morass-lost", "cycle %d (chunk %d, concurrent %v): io.EOF after %d of %d pushed values; missing %s", ci, pl.Chunk, pl.Concurrent, k, n, describeRemaining(remaining))
 				}
+				if perr != nil && pl.Tolerant && pl.DrainOn && ci == len(pl.Cycles)-1 && (pl.AutoClean || pl.AutoClear) {
+					ioErr("Pull", perr)
+					// the caller skips what cannot be read and drains the sorter
+					sim.Probe("pulled_on_after_a_pull_error")
+					reached := false
+					for extra := 0; extra <= n+2 && !reached; extra++ {
+						var e2 error
+						switch {
+						case variant == 3:
+							_, _, e2 = fresh.pull(m)
+						case variant == 1:
+							e2 = m.Pull(&dstRK)
+						case variant == 2:
+							e2 = m.Pull(&dstTwin)
+						case pl.Reg:
+							e2 = m.Pull(&dstReg)
+						case pl.Struct:
+							e2 = m.Pull(&dstRec)
+						default:
+							e2 = m.Pull(&dstInt)
+						}
+						reached = e2 == io.EOF
+					}
+					if reached {
+						if pl.AutoClean {
+							if d := sorterDirs(obs.parent); len(d) != 0 {
+								fail("morass-residue@autoclean", "AutoClean set but the temporary directory still exists after a drain that skipped an unreadable run (cycle %d): %v", ci, d)
+							}
+						} else if f := sorterFiles(obs.parent); len(f) != 0 {
+							fail("morass-residue@autoclear", "AutoClear set but run files remain after a drain that skipped an unreadable run (cycle %d): %v", ci, f)
+						}
+					}
+					return true
+				}
 				if ioErr("Pull", perr) {
 					return true
 				}
@@ -420,7 +461,14 @@ func morassClient(sim *simrt.Sim, pl *MorassPlan, obs *morassObs, variant int) {
 				}
 			}
 			last := ci == len(pl.Cycles)-1
-			if !last || cy.ExtraClear {
+			if cy.NoClear && pl.AutoClear && !pl.AutoClean && co.drained && co.delivered && !last {
+				// AutoClear has begun the next cycle already
+				if !pl.Tolerant {
+					if m.Len() != 0 || m.Pos() != 0 {
+						fail("morass-len@autoclear", "cycle %d: Len() = %d, Pos() = %d after the drain of an AutoClear sorter", ci, m.Len(), m.Pos())
+					}
+				}
+			} else if !last || cy.ExtraClear {
 				if ioErr("Clear", m.Clear()) {
 					return true
 				}
